@@ -53,6 +53,22 @@ CHECKS = {
         "set, not all labels.",
         "DESIGN.md section 4 C15",
     ),
+    "C17": (
+        "cascade-derived classification oracle run by the harness over the "
+        "decoder's own decode_* functions, compared with every public "
+        "observer (Token predicates, decode_simple_value type, encode_string "
+        "quoting) over an exhaustively enumerated string space",
+        "All strings up to length 3 (quick) / 4 (thorough) over a "
+        "22-character PVL-significant alphabet, concatenations of ~75 "
+        "borderline atoms and random longer strings x 5 (grammar, decoder, "
+        "encoder) triples: class exclusivity, predicate/class agreement, "
+        "result type, 'unquoted output decodes to itself', 'quoted output "
+        "reads back', 'numbers and date/times are never names'.",
+        "The class of a string is defined by the documented cascade order; "
+        "three design-level disagreements are listed in known_findings.json "
+        "and the strings inside those classes certify nothing.",
+        "DESIGN.md section 4 C17",
+    ),
 }
 
 NOT_YET = "check not built yet in this round (work in progress; see DESIGN.md section 8 build order)"
